@@ -1444,12 +1444,12 @@ impl Expr {
                     | ScalarFunction::HammingDistance
                     | ScalarFunction::LevenshteinDistance
                     | ScalarFunction::Xxhash64
+                    | ScalarFunction::Crc32
                     | ScalarFunction::SpookyHashV2_64
                     | ScalarFunction::FromBigEndian64
                     | ScalarFunction::ParseDataSize => Ok(ArrowDataType::Int64),
                     // Functions returning Int32
-                    ScalarFunction::Crc32
-                    | ScalarFunction::Murmur3
+                    ScalarFunction::Murmur3
                     | ScalarFunction::SpookyHashV2_32
                     | ScalarFunction::FromBigEndian32 => Ok(ArrowDataType::Int32),
                     // Math functions returning Float64
